@@ -105,7 +105,22 @@ def header(draw: Any, pairs: list[tuple[str, str]],
 
 @st.composite
 def roundtrip_cases(draw: Any, max_n: int) -> dict:
-    return {"mat": draw(gen_mat.tsp_matrix(min_n=2, max_n=max_n)),
+    mat = draw(gen_mat.tsp_matrix(min_n=2, max_n=max_n))
+    if draw(st.integers(0, 9)) == 0:
+        # distances above 10^12: the constructor admits every matrix whose
+        # sum of row maxima stays <= 10^15
+        m, n = mat["m"], mat["n"]
+        big = draw(st.sampled_from([10 ** 12 + 1, 2 * 10 ** 12,
+                                    123456789012345, 4 * 10 ** 14]))
+        i = draw(st.integers(0, n - 1))
+        j = (i + 1 + draw(st.integers(0, n - 2))) % n
+        sym = o.is_symmetric(m)
+        m[i][j] = big
+        if sym:
+            m[j][i] = big
+        mat["cls"] = "huge"
+        mat["in_dtype"] = "int64"
+    return {"mat": mat,
             "name": draw(gen_mat.names()),
             "comments": draw(gen_mat.comments()),
             "getter": draw(st.booleans()),
@@ -251,7 +266,7 @@ def planar_points(draw: Any, n: int) -> tuple[str, list[list[str]]]:
 @st.composite
 def geo_points(draw: Any, n: int) -> tuple[str, list[list[str]]]:
     style = draw(st.sampled_from(["geo_mm", "geo_mm", "geo_int", "geo_near",
-                                  "geo_one_digit"]))
+                                  "geo_one_digit", "geo_frac"]))
     out = []
     base = (draw(st.integers(-89, 89)), draw(st.integers(-179, 179)))
     for _ in range(n):
@@ -269,6 +284,10 @@ def geo_points(draw: Any, n: int) -> tuple[str, list[list[str]]]:
                 row.append(f"{deg}")
             elif style == "geo_one_digit":
                 row.append(f"{sign}{abs(deg)}.{mm // 10}")
+            elif style == "geo_frac":  # fractions of a minute: DDD.MMmm
+                extra = draw(st.sampled_from(["5", "25", "49", "51", "99",
+                                              "01", "1", "9"]))
+                row.append(f"{sign}{abs(deg)}.{mm:02d}{extra}")
             else:
                 row.append(f"{sign}{abs(deg)}.{mm:02d}")
         out.append(row)
@@ -491,7 +510,9 @@ def check_roundtrip(ctx: Ctx, case: dict) -> None:
               "roundtrip:" + ("from_file" if case["via_file"]
                               else "_from_stream"),
               f"cls={mat['cls']}"]
-    if max(max(r) for r in m) >= 10 ** 12:
+    if max(max(r) for r in m) > 10 ** 12:
+        labels.append("entry>10^12")
+    elif max(max(r) for r in m) == 10 ** 12:
         labels.append("entry=10^12")
     ctx.rec.case(case, nontrivial=(n >= 3 and not
                                    o.off_diagonal_constant(m)), labels=labels)
